@@ -35,6 +35,8 @@ SMAX = U64 - 1
 CAP_SIZE = 5000
 CAP_RECS = 96
 OBSERVABLE = (0, 4)
+SCRIPT_CAP = 4000          # commands kept in a recorded script (a case has at most a few hundred)
+KEEP_SCRIPTS = 6           # recorded failures / mismatches that keep their script (replay input); the others keep the text only
 
 
 def blob(b):
@@ -48,7 +50,11 @@ class Coproc:
     def cmd(self, line):
         self.p.stdin.write(line + "\n")
         self.p.stdin.flush()
-        return self.p.stdout.readline().rstrip("\n")
+        a = self.p.stdout.readline()
+        if not a.endswith("\n"):
+            raise RuntimeError("model driver (ocaml/c13_driver.ml) died or gave a truncated answer at command %r (rc=%s)"
+                               % (line[:80], self.p.poll()))
+        return a.rstrip("\n")
 
     def close(self):
         try:
@@ -246,15 +252,22 @@ def gen_case(rng, model, allow_flatten, stats):
 
 # ---------------------------------------------------------------------------------------------------------------- running
 
-def harness_answers(exe, cases, timeout=150):
-    """cases: list of lists of command lines. Returns list (per case) of answer lines, None-padded where the harness died
-    (crash, or hang: libdispatch sleeps and retries forever when an allocation of a garbage size fails)."""
+LOAD_NOTES = []
+WALL_LIMIT = 3600      # backstop only: a hang inside one command is ended by the harness itself (no progress for 40 s -> rc 97)
+
+
+def harness_answers(exe, cases, timeout=WALL_LIMIT, env=None):
+    """cases: list of lists of command lines. Returns (answers, info): answers[i] = answer lines of case i, None-padded and
+    followed by a "DIED rc=.." line where the harness died in that case (crash; or rc 97 = the harness' progress watchdog: one
+    command made no progress for 40 s, e.g. libdispatch sleeping and retrying an allocation of a garbage size), or None when the
+    case was not run.  info = {"not_run": [...], "deaths": n, "wall_expired": [...]}.  A wall-clock expiry (rc 124) is load
+    until shown otherwise: the case in progress is re-run once, alone, and only that second result is used."""
     res = [None] * len(cases)
+    info = {"not_run": [], "deaths": 0, "wall_expired": []}
     start = 0
-    deaths = 0
     while start < len(cases):
         lines = [l for c in cases[start:] for l in c]
-        r = common.run([exe], input="\n".join(lines) + "\n", timeout=timeout)
+        r = common.run([exe], input="\n".join(lines) + "\n", timeout=timeout, env=env)
         out = r.stdout.split("\n")
         if out and out[-1] == "":
             out.pop()
@@ -265,18 +278,35 @@ def harness_answers(exe, cases, timeout=150):
             chunk = out[pos:pos + n]
             pos += n
             if len(chunk) < n:
+                if r.returncode == 124:     # wall clock, not the watchdog: decide on an isolated re-run of this case
+                    info["wall_expired"].append(ci)
+                    r2 = common.run([exe], input="\n".join(cases[ci]) + "\n", timeout=timeout, env=env)
+                    o2 = r2.stdout.split("\n")
+                    if o2 and o2[-1] == "":
+                        o2.pop()
+                    if len(o2) >= n:
+                        res[ci] = o2[:n]
+                        died = ("retry-ok", ci)
+                        break
+                    chunk, r = o2[:n], r2
                 res[ci] = chunk + [None] * (n - len(chunk))
-                res[ci].append("DIED rc=%s %s" % (r.returncode, r.stderr[-600:]))
-                died = ci
+                res[ci].append("DIED rc=%s %s" % (r.returncode, (r.stderr or "")[-600:]))
+                died = ("dead", ci)
                 break
             res[ci] = chunk
         if died is None:
+            if r.returncode != 0:          # all answers present but the process did not exit cleanly: not silent
+                last = len(cases) - 1
+                res[last] = list(res[last]) + ["DIED rc=%s after the last answer %s" % (r.returncode, (r.stderr or "")[-600:])]
+                info["deaths"] += 1
             break
-        deaths += 1
-        if deaths >= 3:     # do not spend the budget on a library that keeps dying; the remaining cases are not run
-            break
-        start = died + 1
-    return res
+        if died[0] == "dead":
+            info["deaths"] += 1
+            if info["deaths"] >= 3:     # do not spend the budget on a library that keeps dying; the rest is reported as not run
+                info["not_run"] = list(range(died[1] + 1, len(cases)))
+                break
+        start = died[1] + 1
+    return res, info
 
 
 def model_answers(mexe, lines):
@@ -348,6 +378,10 @@ def judge_case(lines, mans, hans):
         for x in (int(y, 16) for y in fm.get("freed", "").split(",") if y):
             ptr_of.pop(x, None)
 
+    if len(mans) != len(lines) or len(hans) < len(lines):
+        mism.append({"what": "answer lists do not line up with the script: %d commands, %d model answers, %d library answers"
+                             % (len(lines), len(mans), len(hans)), "script": lines[:SCRIPT_CAP]})
+        return fails, mism, 0
     for i, (cmd, ma, ha) in enumerate(zip(lines, mans, hans)):
         if fails or mism:
             break       # after the first difference the rest of the script may be illegal for the library (aliasing differs)
@@ -518,6 +552,8 @@ def judge_case(lines, mans, hans):
                 for x, y in zip(mcr, hcr):
                     ident(i, x[1], y[1], "copy_region(%s) result" % x[0])
             destructors(i, fh, {"dlog": "", "freed": ""})
+    if not fails and not mism and len(hans) > len(lines) and isinstance(hans[-1], str) and hans[-1].startswith("DIED"):
+        mis(len(lines) - 1, "the harness answered every command but did not exit cleanly: " + hans[-1][:300])
     return fails, mism, compared
 
 
@@ -534,113 +570,193 @@ CORPUS = [
 
 
 def build(ctx):
+    """returns (exe, wexe, mexe, errors): errors lists every build that failed (each one is a broken tie, never a silent skip)"""
+    errs = []
     exe, msg = common.build_harness("c13_data", ["c13_data.c"], whitebox=False)
     if exe is None:
-        return None, None, None, "harness build failed: " + msg
+        errs.append("harness build (shared library variant) failed: " + msg[-1500:])
     wexe, msg = common.build_harness("c13_data_wb", ["c13_data.c"], whitebox=True)
+    if wexe is None:
+        errs.append("harness build (static variant, the one that exercises flattened objects) failed: " + msg[-1500:])
     mexe, msg2 = common.build_ocaml("c13_driver.ml", extracted=("data_model",))
     if mexe is None:
-        return None, None, None, "model driver build failed: " + msg2
-    return exe, wexe, mexe, ""
+        errs.append("model driver build (extracted Model/Data.v + ocaml/c13_driver.ml) failed: " + msg2[-1500:])
+    return exe, wexe, mexe, errs
+
+
+def run_and_judge(binary, batch, variant, env=None):
+    """batch: [(case index, lines, model answers)].  Returns (fails, mism, commands judged, cases judged, library answers)"""
+    fails, mism, total, judged = [], [], 0, 0
+    hs, info = harness_answers(binary, [b[1] for b in batch], env=env)
+    if len(hs) != len(batch):
+        mism.append({"what": "harness_answers returned %d answer lists for %d cases" % (len(hs), len(batch))})
+    for (i, lines, mans), h in zip(batch, hs):
+        if h is None:
+            continue
+        f, m, n = judge_case(lines, mans, h)
+        total += n
+        judged += 1
+        for x in f + m:
+            x["case"] = i
+            x["variant"] = variant
+        fails += f
+        mism += m
+    if info["wall_expired"]:
+        LOAD_NOTES.append("%s variant: the wall limit of %d s expired %d time(s); the case in progress was re-run alone"
+                          % (variant, WALL_LIMIT, len(info["wall_expired"])))
+    if info["not_run"]:
+        mism.append({"what": "%d cases of the %s variant were not run because the harness died %d times before them"
+                             % (len(info["not_run"]), variant, info["deaths"]), "variant": variant})
+    return fails, mism, total, judged, hs
 
 
 def correspond(ctx):
-    exe, wexe, mexe, msg = build(ctx)
-    if exe is None:
-        return {"mismatches": [{"what": msg}], "failures": [], "evaluations": 0}
+    exe, wexe, mexe, errs = build(ctx)
+    mism = [{"what": e} for e in errs]
+    if exe is None or mexe is None:
+        return {"mismatches": mism, "failures": [], "evaluations": 0, "distinct_nontrivial": 0, "rule": "", "samples": [],
+                "distribution": {}}
+    del LOAD_NOTES[:]
     rng = ctx.rng
     ncases = 260 if ctx.tier == "quick" else 6000
     stats = {}
     model = Coproc(mexe)
     cases = []       # (lines, model answers, flatten?)
-    for c in CORPUS:
-        cases.append((list(c), [model.cmd(l) for l in c], False))
-    for k in range(ncases):
-        fl = (wexe is not None) and (k % 6 == 5)
-        g = gen_case(rng, model, fl, stats)
-        cases.append(([x[0] for x in g], [x[1] for x in g], fl))
-    model.close()
-    fails, mism = [], []
-    total = 0
+    try:
+        for c in CORPUS:
+            cases.append((list(c), [model.cmd(l) for l in c], False))
+        for k in range(ncases):
+            fl = (wexe is not None) and (k % 6 == 5)
+            g = gen_case(rng, model, fl, stats)
+            cases.append(([x[0] for x in g], [x[1] for x in g], fl))
+    finally:
+        model.close()
+    fails = []
+    total = judged = 0
     distinct = set()
     samples = []
     for flag, binary in ((False, exe), (True, wexe)):
-        idx = [i for i, c in enumerate(cases) if c[2] == flag]
-        if not idx:
+        batch = [(i, c[0], c[1]) for i, c in enumerate(cases) if c[2] == flag]
+        if not batch or binary is None:
             continue
-        hs = harness_answers(binary, [cases[i][0] for i in idx])
-        for i, h in zip(idx, hs):
-            lines, mans, _ = cases[i]
+        f, m, n, j, hs = run_and_judge(binary, batch, "static" if flag else "shared")
+        fails += f
+        mism += m
+        total += n
+        judged += j
+        for (i, lines, mans), h in zip(batch, hs):
             if h is None:
                 continue
-            f, m, n = judge_case(lines, mans, h)
-            total += n
             for l, a in zip(lines, h):
                 if a and l[0] in "CSMPO":
                     distinct.add((l.split()[0], a.split(" d=")[0].replace("@", "")[-80:], l.split()[-1]))
-            for x in f:
-                x["case"] = i
-                x["variant"] = "static" if flag else "shared"
-            fails += f
-            mism += m
-            if len(samples) < 6 and len(lines) > 6:
+            if len(samples) < 6 and len(lines) > 6 and len(h) > 5:
                 samples.append({"command": lines[5], "library": h[5], "model": mans[5]})
-    # ASan build of the library (thorough tier): same scripts, any report is a failure
+    # ASan build of the library (thorough tier): same scripts, any report is a failure, any build problem a broken tie
     notes = []
     if ctx.tier != "quick":
-        a_f, a_note = asan_run(ctx, [c[0] for c in cases if not c[2]])
+        a_f, a_m, a_note = asan_run(ctx, [(i, c[0], c[1]) for i, c in enumerate(cases) if not c[2]])
         fails += a_f
+        mism += a_m
         notes.append(a_note)
+    notes += LOAD_NOTES
+    stats["cases_generated"] = len(cases)
+    stats["cases_judged"] = judged
+    stats["commands_generated"] = sum(len(c[0]) for c in cases)
+    stats["commands_judged"] = total
+    if judged == 0 or total == 0:
+        mism.append({"what": "nothing was compared: %d cases generated, %d judged, %d commands judged" % (len(cases), judged, total)})
+    elif judged < len(cases) and not fails and not mism:
+        mism.append({"what": "only %d of %d generated cases were judged" % (judged, len(cases))})
     seen, uf = set(), []
     for f in fails:
         if f["key"] not in seen:
             seen.add(f["key"])
             uf.append(f)
-    stats["cases"] = len(cases)
-    stats["commands"] = sum(len(c[0]) for c in cases)
+    for lst in (uf, mism):        # keep the replay file small: only the first few entries keep their script
+        for k, x in enumerate(lst):
+            if "script" in x:
+                if k >= KEEP_SCRIPTS:
+                    x["script_dropped"] = len(x.pop("script"))
+                else:
+                    x["script"] = x["script"][:SCRIPT_CAP]
     return {"evaluations": total, "distinct_nontrivial": len(distinct),
             "rule": "random operation trees (depth <= 12, <= 64 leaves of 0..300 bytes, object size <= %d, four kinds of buffer "
                     "destructors) generated against the extracted Model/Data.v: offsets/lengths at every record boundary +-1, around "
                     "size, and with offset+length around 2^64; after every command the result is observed (size, exact apply region "
                     "list with region objects, early stop, map, copy_region at every boundary +-1 / size / SIZE_MAX, destructor calls "
                     "after draining the queue); every token compared with the model, and the bytes/offsets/destructor counts judged "
-                    "against byte strings kept by the checker; distinct = distinct (command kind, library answer) pairs" % CAP_SIZE,
+                    "against byte strings kept by the checker; evaluations = commands actually judged (see distribution: generated vs "
+                    "judged); distinct = distinct (command kind, library answer) pairs" % CAP_SIZE,
             "samples": samples, "distribution": stats, "mismatches": mism[:30], "failures": uf[:30], "notes": notes}
 
 
-def asan_run(ctx, scripts):
-    """thorough tier: the same scripts against a clang-14 ASan build of the library (clang-16 has no ASan runtime here)"""
+def asan_build():
+    """clang-14 ASan build of the library + harness (clang-16 has no ASan runtime here). Returns (exe, error)"""
     import os
     bdir = os.path.join(common.CACHE, "build-asan")
-    try:
+    with common.Lock("build-asan"):
         if not os.path.exists(os.path.join(bdir, "build.ninja")):
             r = common.run(["cmake", "-G", "Ninja", "-S", common.REPO, "-B", bdir, "-DCMAKE_C_COMPILER=/usr/bin/clang-14",
                             "-DCMAKE_CXX_COMPILER=/usr/bin/clang++-14", "-DCMAKE_BUILD_TYPE=RelWithDebInfo", "-DBUILD_TESTING=OFF",
                             "-DCMAKE_C_FLAGS=-Wno-error -fsanitize=address -fno-omit-frame-pointer",
                             "-DCMAKE_CXX_FLAGS=-Wno-error -fsanitize=address -fno-omit-frame-pointer",
-                            "-DCMAKE_SHARED_LINKER_FLAGS=-fsanitize=address"], timeout=600)
+                            "-DCMAKE_SHARED_LINKER_FLAGS=-fsanitize=address"], timeout=3600)
             if r.returncode != 0:
-                return [], "ASan configure failed (skipped): " + r.stderr[-300:]
-        r = common.run(["ninja", "-C", bdir, "dispatch", "BlocksRuntime"], timeout=1200)
+                return None, "ASan configure failed: " + (r.stdout + r.stderr)[-600:]
+        r = common.run(["ninja", "-C", bdir, "dispatch", "BlocksRuntime"], timeout=7200)
         if r.returncode != 0:
-            return [], "ASan build failed (skipped): " + (r.stdout + r.stderr)[-300:]
+            return None, "ASan build of the library failed: " + (r.stdout + r.stderr)[-600:]
         out = os.path.join(common.CACHE, "bin", "c13_data_asan")
+        os.makedirs(os.path.dirname(out), exist_ok=True)
         r = common.run(["clang-14", "-O1", "-g", "-w", "-fblocks", "-fsanitize=address", "-D_GNU_SOURCE=1", "-I" + common.REPO,
                         "-I" + bdir, "-I" + common.REPO + "/src/BlocksRuntime", os.path.join(common.VERIF, "harness", "c13_data.c"),
-                        "-o", out, "-L" + bdir, "-ldispatch", "-lBlocksRuntime", "-Wl,-rpath," + bdir, "-lpthread"], timeout=600)
+                        "-o", out, "-L" + bdir, "-ldispatch", "-lBlocksRuntime", "-Wl,-rpath," + bdir, "-lpthread"], timeout=3600)
         if r.returncode != 0:
-            return [], "ASan harness build failed (skipped): " + r.stderr[-300:]
-    except Exception as e:  # noqa
-        return [], "ASan run skipped: %r" % e
+            return None, "ASan harness build failed: " + r.stderr[-600:]
+    return out, ""
+
+
+def asan_env():
+    import os
+    return dict(os.environ, ASAN_OPTIONS="detect_leaks=1:abort_on_error=0:halt_on_error=1:exitcode=98")
+
+
+def asan_judge(hs, batch):
+    """an ASan / LSan report ends the process with exit code 98 (ASAN_OPTIONS exitcode): find the case it happened in"""
     fails = []
-    lines = [l for s in scripts for l in s]
-    env = dict(os.environ, ASAN_OPTIONS="detect_leaks=1:abort_on_error=0:halt_on_error=1")
-    r = common.run([out], input="\n".join(lines) + "\n", timeout=3000, env=env)
-    if r.returncode != 0 or "ERROR: AddressSanitizer" in r.stderr or "LeakSanitizer" in r.stderr:
-        n = len([x for x in r.stdout.split("\n") if x])
-        fails.append({"key": "asan", "what": "AddressSanitizer report while running the scripts (after %d answers): %s" % (n, r.stderr[:600]),
-                      "script": lines[max(0, n - 80):n + 1]})
-    return fails, "ASan build: %d commands, rc=%d" % (len(lines), r.returncode)
+    for (i, lines, mans), h in zip(batch, hs):
+        if h and isinstance(h[-1], str) and h[-1].startswith("DIED rc=98"):
+            n = sum(1 for x in h[:len(lines)] if x is not None)
+            fails.append({"key": "asan | " + (lines[min(n, len(lines) - 1)][:60]),
+                          "what": "AddressSanitizer/LeakSanitizer report at command %d of the case: %s" % (n, h[-1][10:500]),
+                          "script": lines[:min(n + 1, len(lines)) if "LeakSanitizer" not in h[-1] else len(lines)],
+                          "variant": "asan", "case": i})
+    return fails
+
+
+def asan_run(ctx, batch):
+    """thorough tier: the same scripts against the ASan build. Returns (failures, mismatches, note)"""
+    out, err = asan_build()
+    if out is None:
+        return [], [{"what": "ASan tier not run: " + err}], "ASan tier not run"
+    f, m, n, j, hs = run_and_judge(out, batch, "asan", env=asan_env())
+    last = hs[-1] if hs else None
+    if last and isinstance(last[-1], str) and last[-1].startswith("DIED rc=98 after the last answer") and len(batch) > 1:
+        # a report at exit (LeakSanitizer): find the case by bisection, so that the recorded script reproduces it alone
+        lo = list(batch)
+        while len(lo) > 1:
+            half = lo[:len(lo) // 2]
+            r = common.run([out], input="\n".join(l for b in half for l in b[1]) + "\n", timeout=WALL_LIMIT, env=asan_env())
+            lo = half if r.returncode == 98 else lo[len(lo) // 2:]
+        h1, _ = harness_answers(out, [lo[0][1]], env=asan_env())
+        if h1[0] and isinstance(h1[0][-1], str) and h1[0][-1].startswith("DIED rc=98"):
+            batch, hs = list(batch) + [lo[0]], list(hs) + [h1[0]]
+            hs[len(hs) - 2] = [x for x in hs[len(hs) - 2] if not (isinstance(x, str) and x.startswith("DIED rc=98 after"))]
+    f = asan_judge(hs, batch) + f
+    if j == 0:
+        m.append({"what": "ASan tier: no case was judged"})
+    return f, m, "ASan build: %d cases, %d commands judged, %d sanitizer reports" % (j, n, len([x for x in f if x.get("variant") == "asan"]))
 
 
 def search(ctx, broken):
@@ -656,30 +772,68 @@ def search(ctx, broken):
 
 
 def replay(ctx, obj):
-    exe, wexe, mexe, msg = build(ctx)
-    if exe is None:
-        print(msg)
+    """re-run every recorded script (failures and broken ties alike) against the current build and model and re-judge it.
+    rc 1: something recorded reproduces; 0: scripts were re-run and nothing reproduces; 2: nothing could be executed."""
+    exe, wexe, mexe, errs = build(ctx)
+    for e in errs:
+        print("build problem: " + e[:600])
+    if mexe is None:
+        print("the model driver could not be built: nothing can be replayed")
         return 2
-    bad = 0
-    for f in obj.get("failures", []):
+    executed = reproduced = 0
+    unexecutable = []
+    entries = [("failure", f) for f in obj.get("failures", [])]
+    for b in obj.get("broken", []):
+        d = b.get("detail") if isinstance(b, dict) else None
+        if isinstance(b, dict) and b.get("what") == "correspondence" and isinstance(d, dict):
+            entries.append(("tie", d))
+        else:
+            unexecutable.append(b)
+    for kind, f in entries:
         script = f.get("script")
         if not script:
-            print("no script recorded:", f.get("what"))
+            unexecutable.append(f)
             continue
-        binary = wexe if f.get("variant") == "static" and wexe else exe
+        variant = f.get("variant", "shared")
+        env = None
+        if variant == "static":
+            binary = wexe
+        elif variant == "asan":
+            binary, err = asan_build()
+            env = asan_env()
+            if binary is None:
+                print("ASan build problem: " + err[:400])
+        else:
+            binary = exe
+        if binary is None:
+            print("the %s variant of the harness could not be built; recorded: %s" % (variant, str(f.get("what"))[:200]))
+            unexecutable.append(f)
+            continue
         mans = model_answers(mexe, script)
-        hans = harness_answers(binary, [script])[0]
+        hs, info = harness_answers(binary, [script], env=env)
+        hans = hs[0]
         fl, mm, n = judge_case(script, mans, hans)
-        print("replaying %d commands; last: %s" % (len(script), script[-1]))
-        print("  library: %s" % (hans[len(script) - 1] if len(hans) >= len(script) else hans[-1]))
-        print("  model  : %s" % mans[-1])
+        if variant == "asan":
+            fl = asan_judge(hs, [(0, script, mans)]) + fl
+        executed += 1
+        print("replaying %d commands (%s, %s variant); last: %s" % (len(script), kind, variant, script[-1][:100]))
+        shown = [x for x in hans[:len(script)] if x is not None]
+        print("  library: %s" % (shown[-1][:300] if shown else hans[-1]))
+        print("  model  : %s" % mans[min(len(shown), len(mans)) - 1][:300])
         for x in fl:
-            print("  FAIL: " + x["what"])
-            bad += 1
+            print("  FAIL (reproduces): " + x["what"])
         for x in mm[:3]:
-            print("  differs from the model: " + x["what"])
-        if not fl:
-            print("  (does not fail now; recorded: %s)" % f.get("what"))
-    for b in obj.get("broken", []):
-        print("no longer checks:", str(b)[:1500])
-    return 1 if (bad or obj.get("broken")) else 0
+            print("  differs from the model (reproduces): " + x["what"])
+        if fl or mm:
+            reproduced += 1
+        else:
+            print("  does not reproduce (recorded: %s)" % str(f.get("what"))[:300])
+    for b in unexecutable:
+        print("cannot be re-executed from the replay file (only a full ./check re-establishes it): " + str(b)[:1200])
+    if reproduced:
+        return 1
+    if executed:
+        print("does not reproduce: %d recorded script(s) re-run and re-judged, none fails or differs from the model now" % executed)
+        return 0
+    print("nothing in this replay file could be executed")
+    return 2
